@@ -165,8 +165,8 @@ PROPS["C12"] = {
         H("c12_ispart_d_2sets", "ac", _c12_ip % (2, 8) + " (directed)", tier="thorough", covers=["a true partition", "not a partition"], bounds="3 nodes, 2 sets", timeout=1200),
         H("c12_ispart_u_3sets", "ac", _c12_ip % (3, 12), tier="thorough", covers=["a true partition", "not a partition"], bounds="3 nodes, 3 sets", timeout=1800),
         H("c12_ispart_u_1set", "ac", _c12_ip % (1, 4), covers=["a true partition", "not a partition"], bounds="3 nodes, 1 set", timeout=900),
-        H("c12_modguard_u_2sets", "ac", "modularity returns NotAPartition exactly for the non-partitions (symbolic 2x4 membership matrix), undirected", tier="thorough", covers=["a true partition"], bounds="3 nodes, 2 sets", timeout=1800),
-        H("c12_modguard_d_2sets", "ac", "same, directed", tier="thorough", covers=["a true partition"], bounds="3 nodes, 2 sets", timeout=1800),
+        H("c12_modguard_u_2sets", "ac", "modularity returns NotAPartition exactly for the non-partitions (symbolic 2x4 membership matrix), undirected", tier="full", covers=["a true partition"], bounds="3 nodes, 2 sets", timeout=3000),
+        H("c12_modguard_d_2sets", "ac", "same, directed", tier="full", covers=["a true partition"], bounds="3 nodes, 2 sets", timeout=3000),
     ] + [
         H(n, "ac", "modularity value vs Newman's formula: %s; integer weights 1..8 symbolic, resolution in {0.5,1,2} symbolic; tolerance 1e-9" % w, tier=tr, covers=["reached end"], bounds="3 nodes, <=3 edges", timeout=1500)
         for (n, w, tr) in [
